@@ -890,6 +890,7 @@ func AdoptSession(p Persistence, c *Config) (client *Client, warn []error, fatal
 		if n-p != 1 && !(n == 0 && p == publishIDMask) {
 			warn = append(warn, fmt.Errorf("mqtt: PUBREL %#x–%#x dropped ☠️ due gap until PUBLISH %#x",
 				publishReleaseKeys[0], publishReleaseKeys[len(publishReleaseKeys)-1], publishExactlyOnceKeys[0]))
+			publishReleaseKeys = nil
 		}
 	}
 
